@@ -7,8 +7,9 @@ ROOT="$(cd "$(dirname "${BASH_SOURCE[0]}")/.." && pwd)"
 WT="$1"; SRC="$2"; ID="$3"; shift; shift; shift
 OUT="${SEED_OUT_ROOT:-$ROOT/seeded}/$ID"; mkdir -p "$OUT"
 cp "$SRC/patch.diff" "$OUT/patch.diff"; cp "$SRC/demo.rs" "$OUT/demo.rs"; [ -f "$SRC/notes.md" ] && cp "$SRC/notes.md" "$OUT/notes.md"
-LOG="$OUT/eval.log"; : > "$LOG"
+LOG="$OUT/eval.log"; [ -z "$PHASE_B_ONLY" ] && : > "$LOG"
 export CARGO_NET_OFFLINE=true
+if [ -z "$PHASE_B_ONLY" ]; then
 res() { grep -E "^test result|error(\[|:)" | head -3 | tr '\n' ' '; }
 ( cd "$WT" && git checkout -q -- . && rm -rf tests && mkdir tests && cp "$OUT/demo.rs" tests/seed_demo.rs ) || exit 2
 CLEAN=$(cd "$WT" && cargo test --offline --test seed_demo 2>&1 | res)
@@ -19,6 +20,8 @@ SUITE=$(cd "$WT" && cargo test --offline 2>&1 | grep -E "^test result" | head -1
 echo "suite with change: $SUITE" | tee -a "$LOG"
 echo "demo without change: $CLEAN" | tee -a "$LOG"
 echo "demo with change:    $PATCHED" | tee -a "$LOG"
+fi
+[ -n "$PHASE_A_ONLY" ] && exit 0   # the /repo part is run later (PHASE_B_ONLY=1) when /repo is busy
 PROPS="$@"; [ -z "$PROPS" ] && PROPS="C01 C02 C03 C04 C05 C06 C07 C08 C09 C10 C11 C12 C13 C14 C15 C16 C17 C18"
 (
   flock 9
